@@ -6,6 +6,7 @@
 (*                    registry digest and the operands' projections are unchanged            *)
 (*   C07  Intern      a repeated request returned the identical object; equal requests give  *)
 (*                    equal descriptors and hashes, different requests unequal quantities    *)
+(*        Resolves    a category-only request gives the category's default unit, a unit+category request that unit, whatever came before *)
 (*        Frozen      a quantity's projection is the same before and after a step            *)
 (*        ReadOnly    the mutator raised ReadOnlyError                                       *)
 (*   C13  Operand     an operand's projection (container contents included) is unchanged     *)
@@ -25,6 +26,7 @@ Judge(ev) ==
     [] ev.op = "Intern"    -> ev.id1 = ev.id2 /\ ev.desc1 = ev.desc2 /\ ev.hash1 = ev.hash2
     [] ev.op = "SameReq"   -> ev.eq /\ ~ev.ne /\ ev.hash1 = ev.hash2 /\ ev.desc1 = ev.desc2
     [] ev.op = "DiffReq"   -> ~ev.eq /\ ev.ne /\ ev.desc1 # ev.desc2
+    [] ev.op = "Resolves"  -> ev.unit = ev.want_unit /\ ev.category = ev.want_category /\ ev.unit0 = ev.want_unit0 /\ ev.eq
     [] ev.op = "Frozen"    -> ev.pre = ev.post
     [] ev.op = "ReadOnly"  -> ev.cls = "ReadOnlyError"
     [] ev.op = "QCopy"     -> ev.same_object
